@@ -15,6 +15,7 @@ import (
 	"sort"
 	"strings"
 	"sync"
+	"time"
 	"unsafe"
 
 	"github.com/ProtonMail/gluon"
@@ -29,8 +30,13 @@ const chunkLimit = db.ChunkLimit
 func main() { common.Main("C08", runC08) }
 
 type txn struct {
-	Ops      []op
-	Abort    bool // the callback returns an error after the last operation
+	Ops   []op
+	Abort bool // the callback returns an error after the last operation
+	// AbortErr selects the error an aborting callback returns: 0 an ordinary error; 1 context.Canceled and 3
+	// context.DeadlineExceeded taken from a context DERIVED inside the callback (the transaction's own context stays
+	// alive); 2 and 4 the same wrapped with %w; 5 whatever a read of the transaction returns when it is given such a
+	// cancelled derived context.
+	AbortErr int
 	ReadOnly bool // executed through Client.Read
 	// Overlap > 0: the (read) operations are executed Iters times by Overlap concurrent Client.Read calls whose
 	// callbacks are all inside Read before the first query starts (the connection pool of database/sql grows);
@@ -73,6 +79,71 @@ type failure struct {
 }
 
 var errAbort = errors.New("harness: abort")
+
+var abortErrNames = []string{"error", "canceled", "wrapped-canceled", "deadline", "wrapped-deadline", "op-on-cancelled-ctx"}
+
+// abortError produces the error of an aborting callback (see txn.AbortErr). ctx is the context the callback received.
+func abortError(ctx context.Context, kind int, rd db.ReadOnly) error {
+	switch kind {
+	case 1, 2, 5:
+		cctx, cancel := context.WithCancel(ctx)
+		cancel()
+		err := cctx.Err()
+		if kind == 5 {
+			// a query of the transaction that is handed the cancelled context (a helper with its own deadline / errgroup)
+			if _, qerr := rd.GetAllMailboxesAsRemoteIDs(cctx); qerr != nil {
+				return qerr
+			}
+			return err
+		}
+		if kind == 2 {
+			return fmt.Errorf("harness: remote call: %w", err)
+		}
+		return err
+	case 3, 4:
+		cctx, cancel := context.WithDeadline(ctx, time.Now().Add(-time.Second))
+		defer cancel()
+		<-cctx.Done()
+		if kind == 4 {
+			return fmt.Errorf("harness: remote call: %w", cctx.Err())
+		}
+		return cctx.Err()
+	}
+	return errAbort
+}
+
+// probeAfterAbort: after a transaction that returned an error the client must be usable at once: a Read and an empty Write
+// succeed (the rolled-back transaction holds no connection and no lock any more).
+func probeAfterAbort(bg context.Context, client db.Client) string {
+	type out struct {
+		what string
+		err  error
+	}
+	ch := make(chan out, 1)
+	go func() {
+		if err := client.Read(bg, func(ctx context.Context, rd db.ReadOnly) error {
+			_, err := rd.GetAllMailboxesAsRemoteIDs(ctx)
+			return err
+		}); err != nil {
+			ch <- out{"Read", err}
+			return
+		}
+		if err := client.Write(bg, func(ctx context.Context, tx db.Transaction) error { return nil }); err != nil {
+			ch <- out{"empty Write", err}
+			return
+		}
+		ch <- out{}
+	}()
+	select {
+	case o := <-ch:
+		if o.err != nil {
+			return fmt.Sprintf("the %s that follows the aborted transaction fails: %v", o.what, o.err)
+		}
+		return ""
+	case <-time.After(30 * time.Second):
+		return "the Read / Write that follows the aborted transaction does not return within 30s"
+	}
+}
 
 type runOut struct {
 	fail  *failure
@@ -225,7 +296,7 @@ func runTx(bg context.Context, client db.Client, raw *sql.DB, ids *idmap, oracle
 			}
 		}
 		if t.Abort {
-			return errAbort
+			return abortError(ctx, t.AbortErr, rd)
 		}
 		return nil
 	}
@@ -280,6 +351,24 @@ func runTx(bg context.Context, client db.Client, raw *sql.DB, ids *idmap, oracle
 	}
 	if committed && !t.ReadOnly {
 		*oracle = *work
+	}
+	if !committed && !t.ReadOnly {
+		if failedAt < 0 && bg.Err() == nil {
+			// the error the callback returned is the one the caller gets (possibly wrapped)
+			want := errAbort
+			switch t.AbortErr {
+			case 1, 2, 5:
+				want = context.Canceled
+			case 3, 4:
+				want = context.DeadlineExceeded
+			}
+			if !errors.Is(werr, want) {
+				return &failure{Kind: "writeerr", Detail: fmt.Sprintf("aborting with %s: Write returned %q", abortErrNames[t.AbortErr], werr), Tx: ti, Op: len(t.Ops)}, ""
+			}
+		}
+		if msg := probeAfterAbort(bg, client); msg != "" {
+			return &failure{Kind: "aborted-transaction-left-open", Detail: fmt.Sprintf("aborting with %s: %s", abortErrNames[t.AbortErr], msg), Tx: ti, Op: len(t.Ops)}, ""
+		}
 	}
 	d, err := ids.dumpRaw(raw)
 	if err != nil {
@@ -459,6 +548,9 @@ func (sc *scenario) canon(f *failure) string {
 		}
 		if t.Abort {
 			k += "!"
+			if t.AbortErr > 0 && t.AbortErr < len(abortErrNames) {
+				k += "(" + abortErrNames[t.AbortErr] + ")"
+			}
 		}
 		if t.Overlap > 0 {
 			k = fmt.Sprintf("R||x%d", t.Overlap)
@@ -539,7 +631,7 @@ func shrink(ctx *common.Ctx, sc *scenario, f *failure, budget int) (*scenario, *
 				c := &scenario{Name: cur.Name, Trace: cur.Trace}
 				for k, t := range cur.Txs {
 					if k == ti {
-						nt := txn{Abort: t.Abort, ReadOnly: t.ReadOnly}
+						nt := txn{Abort: t.Abort, AbortErr: t.AbortErr, ReadOnly: t.ReadOnly}
 						nt.Ops = append(nt.Ops, t.Ops[:oi]...)
 						nt.Ops = append(nt.Ops, t.Ops[oi+1:]...)
 						c.Txs = append(c.Txs, nt)
@@ -556,7 +648,7 @@ func shrink(ctx *common.Ctx, sc *scenario, f *failure, budget int) (*scenario, *
 
 func runC08(ctx *common.Ctx) error {
 	res := ctx.Res
-	res.Rule = "random and structured histories of db.Client Read/Write transactions over ALL operations of the db interface (list lengths 0..2*ChunkLimit+1 with mass at ChunkLimit-1/ChunkLimit/ChunkLimit+1 and 2*ChunkLimit-1/../+1, derived from db.ChunkLimit; half of the histories on a client with the tracing wrappers; aborts at every position, failing operations); after every operation the result and after every transaction a raw SQL dump of the file are compared with a plain in-memory relational oracle; non-trivial = distinct (operation kind, list-length class, outcome class)"
+	res.Rule = "random and structured histories of db.Client Read/Write transactions over ALL operations of the db interface (list lengths 0..2*ChunkLimit+1 with mass at ChunkLimit-1/ChunkLimit/ChunkLimit+1 and 2*ChunkLimit-1/../+1, derived from db.ChunkLimit; half of the histories on a client with the tracing wrappers; aborts at every position with ordinary errors and with context.Canceled / context.DeadlineExceeded of a context derived inside the callback (bare, wrapped, returned by a query), each followed by a Read and a Write that must succeed, failing operations); after every operation the result and after every transaction a raw SQL dump of the file are compared with a plain in-memory relational oracle; non-trivial = distinct (operation kind, list-length class, outcome class)"
 	scs := genScenarios(ctx)
 	var lines []string
 	caseID := 0
